@@ -36,6 +36,7 @@ KIND_PATTERNS = [
     (r"^The elements of Array '.*' are no Structs", "elements_no_structs"),
     (r"^Array elements can not be used in expressions", "array_in_expression"),
     (r"^A string can not be used as boolean expression", "string_condition"),
+    (r"^A string can not be negated", "string_negated"),
     (r"^The Struct instantiation is not valid JSON", "invalid_json"),
     (r"^The program is nested too deeply", "too_deep"),
     (r"^Attribute '.*' is not defined in the instantiated struct", "missing_attribute"),
@@ -52,7 +53,8 @@ KIND_PATTERNS = [
     (r"^The given attribute can not be resolved to a boolean", "not_boolean"),
     (r"^The limit of a counting loop has to be a number", "limit_not_number"),
     (r"^Only a single task is allowed in a parallel loop", "parallel_loop_body"),
-    (r"calls itself recursively", "recursion"),
+    (r"is recursive$", "recursion"),
+    (r"^Right and left side have to be boolean expressions", "and_or_types"),
     (r"^The file contains no '", "no_production_task"),
     (r"^A Struct with the name '", "duplicate_struct"),
     (r"^A Task with the name '", "duplicate_task"),
@@ -173,6 +175,14 @@ def node_line_of(nodes, line):
     return best["line"] if best else None
 
 
+def source_order(prog):
+    """definitions in the order of the text (the visitor keeps the first definition of a name)"""
+    p = dict(prog)
+    p["structs"] = sorted(prog.get("structs", []), key=lambda x: x.get("line", 0))
+    p["tasks"] = sorted(prog.get("tasks", []), key=lambda x: x.get("line", 0))
+    return p
+
+
 def impl_projection(res, nodes):
     out = []
     for e in res["errs"]:
@@ -225,6 +235,62 @@ def random_layout(rng):
             "literal_style": rng.choice([0, 1, 2])}
 
 
+# classes of vgen's catalogue that the property's catalogue does not name (the documentation is silent on them)
+EXCLUDED_CLASSES = {"expr_mixed_type_equality"}
+
+
+def _path_type(prog, task_name, path):
+    structs = {s["name"]: s for s in prog["structs"]}
+    task = next((t for t in prog["tasks"] if t["name"] == task_name), None)
+    if task is None:
+        return None
+    ty = None
+    for x, xt in task.get("ins", []):
+        if x == path[0]:
+            ty = xt
+    for st in progs.walk(task["body"]):
+        calls = [st] if st["k"] in ("svc", "call") else st.get("calls", []) if st["k"] == "par" else [st["call"]] if st["k"] == "ploop" and st.get("call") else []
+        for c in calls:
+            for x, xt in c.get("outs", []) or []:
+                if x == path[0]:
+                    ty = xt
+    for seg in path[1:]:
+        if ty is None or seg.startswith("["):
+            return None
+        s = structs.get(ty)
+        if s is None:
+            return None
+        ty = dict((a, t) for a, t in s["attrs"]).get(seg)
+    return ty
+
+
+def known_fault_shape(info, prog=None):
+    """K7a: a boolean literal as operand of an arithmetic / ordering operator is accepted (expression_is_number counts
+    booleans as numbers; the unit test test_expression_is_number pins this) - harmless at run time (True == 1).
+    K7b: negation of a number is accepted (test_check_unary_operation pins it; Python's `not` is defined on numbers)."""
+    w = info.get("where") or ""
+    if info["cls"] != "expr_ill_typed_operand" or ":= " not in w:
+        return False
+    head, val = w.rsplit(":= ", 1)
+    if "number operand" in head and val in ("true", "false"):
+        return True
+    if "boolean operand" in head:
+        ref = head.split("operand", 1)[1].strip().split(".")
+        while ref and ref[-1] == "binOp":
+            ref.pop()
+        if ref and ref[-1] == "value":
+            try:
+                float(val)
+                return True
+            except ValueError:
+                pass
+            if prog is not None and not val.startswith('"') and val not in ("true", "false"):
+                m = re.match(r"task (\S+) >", w)
+                if m and _path_type(prog, m.group(1), val.split(".")) == "number":
+                    return True
+    return False
+
+
 def job_faults(args):
     """C10 / C19 / C16 / correspondence on single-fault programs"""
     seed, size, k = args
@@ -235,6 +301,10 @@ def job_faults(args):
     try:
         prog = vgen.gen_wf_program(rng, size=size)
         for mp_, info in vgen.sample_faults(prog, rng, k):
+            if info["cls"] in EXCLUDED_CLASSES:
+                continue
+            if known_fault_shape(info, mp_):
+                continue
             lay = random_layout(rng) if rng.random() < 0.5 else None
             text = vgen.print_program(mp_, lay)
             target = vgen.resolve_target(mp_, info)
@@ -717,6 +787,10 @@ def _run(ctx, pool, res):
             run_hist["known_ploop_shape"] = run_hist.get("known_ploop_shape", 0) + 1
         if r.get("ctor_exc"):
             add_violation(res, seen, "C09", "construction_raises_" + r["ctor_exc"], "accepted program (%s): Scheduler construction raised %s" % (r["label"], r["ctor_exc"]), r["text"], {"label": r["label"]})
+        elif r.get("run_exc") == "ZeroDivisionError" and " / " in r["text"]:
+            run_hist["known_K11_division_by_zero"] = run_hist.get("known_K11_division_by_zero", 0) + 1
+        elif r.get("run_exc") == "RecursionError" and r.get("queries", 0) + r.get("steps", 0) > 30:
+            run_hist["known_K9_recursion_depth"] = run_hist.get("known_K9_recursion_depth", 0) + 1
         elif r.get("run_exc"):
             if not r.get("shapes"):
                 add_violation(res, seen, "C09", "run_raises_" + r["run_exc"], "accepted program (%s): %s escaped start()/fire_event(): %s" % (r["label"], r["run_exc"], r.get("run_exc_msg")), r["text"], {"label": r["label"]})
@@ -725,7 +799,7 @@ def _run(ctx, pool, res):
     # model correspondence -----------------------------------------------------------------------------------
     disagreements = []
     if ctx["model_ok"] and model_reqs:
-        resps = run_model([{"k": "check", "prog": p} for _, p, _, _ in model_reqs])
+        resps = run_model([{"k": "check", "prog": source_order(p)} for _, p, _, _ in model_reqs])
         for (tag, p, rv, text), resp in zip(model_reqs, resps):
             if "error" in resp:
                 disagreements.append((tag, text, "model error: " + resp["error"]))
@@ -746,7 +820,8 @@ def _run(ctx, pool, res):
                     disagreements.append((tag, text, "messages (kind, construct line): implementation %r / model %r" % (pi, pm)))
     elif not ctx["model_ok"]:
         res["unexplained"].append({"what": "the Lean model does not build: " + "; ".join(ctx["build"].get("build_errors", [])[:3])})
-    if disagreements and not [v for v in res["violations"]]:
+    res["violations"] = [v for v in res["violations"] if v["replay_obj"]["property"] == prop]
+    if disagreements and not res["violations"]:
         tag, text, d = disagreements[0]
         res["unexplained"].append({"what": "correspondence broken (validation model, %s projection) on %d of %d programs: [%s] %s"
                                            % (prop, len(disagreements), len(model_reqs), tag, d), "case": {"text": text}, "detail": d})
@@ -806,7 +881,8 @@ def job_replay(prop, obj):
     if prop == "C09" and r["valid"]:
         import impl
 
-        run = impl.Run(text, ids="test", answers=lambda n, c: None)
+        const = obj.get("answer")
+        run = impl.Run(text, ids="test", answers=lambda n, c: const)
         if run.ctor_exc:
             out.append(("construction_raises_" + run.ctor_exc, "Scheduler construction raised %s" % run.ctor_exc))
         elif run.s is not None and obj.get("drive"):
@@ -819,4 +895,6 @@ def job_replay(prop, obj):
                 n += 1
             if c.get("exc"):
                 out.append(("run_raises_" + c["exc"], "raised %s" % c["exc"]))
+            elif run.calls and not run.calls[-1].get("final_marking") and not run.pending:
+                out.append(("does_not_complete", "nothing outstanding but the order did not complete"))
     return out
